@@ -303,7 +303,7 @@ PROPS = {
         "assumptions": ["Config.Safe is the only configuration hypothesis used by the panic-freedom theorems of C06/C07/C20"],
     },
     "C20": {
-        "lean_modules": ["Props.Facts19", "Props.C20b", "Props.Facts20", "Props.Gen20", "Props.GenT20", "Props.Gen03m", "Props.GenT03m", "Props.Gen12", "Props.GenT12"],
+        "lean_modules": ["Props.Facts19", "Props.C20b", "Props.Facts20", "Props.Gen20", "Props.GenT20", "Props.Gen20h", "Props.GenT20h", "Props.Gen03m", "Props.GenT03m", "Props.Gen12", "Props.GenT12"],
         "groups": [{"name": "C20", "quick": 600, "thorough": 20000, "workers": 12},
                    {"name": "media", "quick": 600, "thorough": 20000, "workers": 12},
                    # configuration files through the real parser: the hook that reaches openExternally is the configured one
@@ -451,7 +451,7 @@ MANIFEST_TEXT = {
         "technique": "Lean 4 proof (character-level case analysis) + differential correspondence, exhaustive colour space in thorough",
     },
     "C20": {
-        "text": "Lean theorems for all hooks, links and media types: argv has the hook's length, the program name is never substituted, an argument is replaced iff it is exactly a placeholder, stdin carries the link iff no %url argument, the link is one verbatim argument; which (link, media type) pair is handed on is proved on pub/link.go as translated to Lean on every run (extract/go2lean5.go -> Generated/GoLink.lean, Props/Gen20.lean, Props/GenT20.lean): the link's own type, else the default of its kind, else the caller's default. Which link a number, o, p or b selects is proved on Post/Actor/Activity.SelectLink, Post.Media, Actor.ProfilePic/Banner as translated (extract/go2lean11.go -> Generated/GoSelect.lean, Props/Gen12.lean, Props/GenT12.lean). Tied to ui.openExternally by running the real function with a dump program as the hook and comparing argv/stdin with the model; the same predicates are checked on the recorded argv.",
+        "text": "Lean theorems for all hooks, links and media types: argv has the hook's length, the program name is never substituted, an argument is replaced iff it is exactly a placeholder, stdin carries the link iff no %url argument, the link is one verbatim argument; which (link, media type) pair is handed on is proved on pub/link.go as translated to Lean on every run (extract/go2lean5.go -> Generated/GoLink.lean, Props/Gen20.lean, Props/GenT20.lean): the link's own type, else the default of its kind, else the caller's default. Which link a number, o, p or b selects is proved on Post/Actor/Activity.SelectLink, Post.Media, Actor.ProfilePic/Banner as translated (extract/go2lean11.go -> Generated/GoSelect.lean, Props/Gen12.lean, Props/GenT12.lean). (*State).openExternally of ui/ui.go itself - the copy of the configured hook, the loop with its index-0 skip and its switch over the placeholder literals, the flag, exec.Command(command[0], command[1:]...), cmd.Stdin under its condition, and the goroutine that reports how the program ended - is translated to Lean on every run (extract/go2lean17.go -> Generated/GoHook.lean) and proved to hand os/exec exactly Hook.build's argv and stdin for every hook, link and media type, to leave Ui.openExternally's state, never to write the configured hook, and to end in Ui.hookDone's state in every mode after success and failure (Props/Gen20h.lean); the C20 theorems hold of the translated code (Props/GenT20h.lean). Also tied to ui.openExternally by running the real function with a dump program as the hook and comparing argv/stdin with the model; the same predicates are checked on the recorded argv.",
         "design_ref": "DESIGN.md §5 C20",
         "note": "Trusted: Lean kernel; correspondence check (testing); os/exec argv passing.",
         "technique": "Lean 4 proof (list induction) + differential correspondence through a recording hook program",
